@@ -181,21 +181,43 @@ def check(case):
                     return labels + ["text-roundtrip-n/a"]
             except Exception:
                 return labels + ["text-roundtrip-n/a"]
-            po, pn = os.path.join(d, "old.cfg"), os.path.join(d, "new.cfg")
-            open(po, "w").write(told)
-            open(pn, "w").write(tnew)
-            args = types.SimpleNamespace(hw=hw, add_comments=False, indent="  ", show_rules=False, no_color=True)
+            # directory mode ('annet file-diff OLD_DIR NEW_DIR'): two trees of cfgdumps as an archive unpacks them - equal time stamps,
+            # and here also equal sizes (the shorter file ends with more blank lines); next to the pair a cfgdump that did not change
+            # and one that exists on one side only.  What the enumerator hands to the workers is every name present on both sides.
+            from annet.api import _read_old_new_cfgdumps
+            dold, dnew = os.path.join(d, "old"), os.path.join(d, "new")
+            os.makedirs(dold)
+            os.makedirs(dnew)
+            po, pn = os.path.join(dold, "dev1.cfg"), os.path.join(dnew, "dev1.cfg")
+            n = max(len(told), len(tnew)) + 1
+            open(po, "w").write(told + "\n" * (n - len(told)))
+            open(pn, "w").write(tnew + "\n" * (n - len(tnew)))
+            for dd_ in (dold, dnew):
+                open(os.path.join(dd_, "same.cfg"), "w").write(told + "\n")
+            open(os.path.join(dold, "gone.cfg"), "w").write(told + "\n")
+            for dd_ in (dold, dnew):
+                for fn in os.listdir(dd_):
+                    os.utime(os.path.join(dd_, fn), (1700000000, 1700000000))
+            pairs = sorted(_read_old_new_cfgdumps(types.SimpleNamespace(old=dold, new=dnew)))
+            want_pairs = sorted((os.path.join(dold, fn), os.path.join(dnew, fn)) for fn in ("dev1.cfg", "same.cfg"))
+            if pairs != want_pairs:
+                raise Violation("directory-mode-pairs", f"{model}: directory mode hands {[os.path.basename(a) for a, b in pairs]!r} to the workers, "
+                                f"both sides hold dev1.cfg (changed: {told != tnew}) and same.cfg", dict(det, old_text=told, new_text=tnew))
+            # (--indent is a presentation option: '' is what the deployer asks for, a tab and four blanks are common)
+            ind = ["  ", "", "    ", "\t"][(len(told) + 3 * len(tnew)) % 4]
+            args = types.SimpleNamespace(hw=hw, add_comments=False, indent=ind, show_rules=False, no_color=True)
             got_patch = list(file_patch_worker((po, pn), args))
             got_diff = list(file_diff_worker((po, pn), args))
         finally:
             shutil.rmtree(d, ignore_errors=True)
         _, pt = _diff_and_patch(sut.Dev(hw), old, new, None, None, False)
-        exp_patch = sut.registry().match(hw).make_formatter(indent="  ").patch(pt)
+        exp_patch = sut.registry().match(hw).make_formatter(indent=ind).patch(pt)
+        labels.append("indent:%r" % ind)
         gp = got_patch[0][1] if got_patch else ""
         if gp != exp_patch:
             raise Violation("file-worker-patch", f"{model}: file_patch_worker output differs from the device-mode patch text", dict(det, got=gp, exp=exp_patch))
         dd, _ = _diff_and_patch(sut.Dev(hw), old, new, None, None, False)
-        exp_diff = "".join(gen_pre_as_diff(make_pre(dd), False, "  ", True))
+        exp_diff = "".join(gen_pre_as_diff(make_pre(dd), False, ind, True))
         gd = got_diff[0][1] if got_diff else ""
         if gd != exp_diff:
             raise Violation("file-worker-diff", f"{model}: file_diff_worker text differs from gen_pre_as_diff of the device diff", dict(det, got=gd, exp=exp_diff))
